@@ -53,6 +53,11 @@ impl Out {
         }
         line.push_str(" => ");
         line.push_str(out);
+        // privileged instructions trapped outside the observed call since the previous line (see trap.rs)
+        let stray = crate::trap::take_stray();
+        if stray > 0 {
+            line.push_str(&format!(" stray {}", stray));
+        }
         self.evaluations += 1;
         let cls = format!(
             "{}:{}",
